@@ -23,7 +23,7 @@ ENV["CARGO_TERM_COLOR"] = "never"
 
 CONC = ("hlmon", dict(runner="conc"))
 PROPS = {
-    "C01": dict(level="exploration", lanes=[CONC, ("hlmon", dict(runner="seqfam"))]),
+    "C01": dict(level="exploration", lanes=[CONC, ("hlmon", dict(runner="seqfam")), ("hlmon", dict(runner="ownedconc"))]),
     "C02": dict(level="exploration", lanes=[
         CONC, ("hlmon", dict(runner="conc_panic")), ("hlmon", dict(runner="blockfam")), ("hlmon", dict(runner="tuplefam")), ("hlmon", dict(runner="racefam")),
         ("miri", dict(runner="racefam", mode="seeds", seeds_quick=16, seeds_thorough=256, canary="canary_race")),
@@ -34,7 +34,7 @@ PROPS = {
     "C05": dict(level="exploration", lanes=[CONC, ("hlmon", dict(runner="seqfam")), ("hlmon", dict(runner="tryfam")), ("hlmon", dict(runner="blockfam")), ("hlmon", dict(runner="tuplefam")), ("hlmon", dict(runner="conc_panic"))]),
     "C06": dict(level="exploration", lanes=[("hlmon", dict(runner="keyfam"))]),
     "C07": dict(level="exploration", lanes=[("hlmon", dict(runner="dupfam")), ("corpus", dict()), ("matrix", dict())]),
-    "C08": dict(level="exploration", lanes=[("hlmon", dict(runner="orderfam"))]),
+    "C08": dict(level="exploration", lanes=[("hlmon", dict(runner="orderfam")), ("hlmon", dict(runner="ownedconc"))]),
     "C09": dict(level="exploration", lanes=[("hlmon", dict(runner="conc_retry")), ("hlmon", dict(runner="blockfam"))]),
     "C10": dict(level="exploration", lanes=[("hlmon", dict(runner="poisonfam")), ("hlmon", dict(runner="poisonsoak")), ("hlmon", dict(runner="conc_panic"))]),
     "C11": dict(level="fault_enumeration", lanes=[("hlmon", dict(runner="panicfam")), ("hlmon", dict(runner="conc_panic")), ("hlmon", dict(runner="seqfam"))]),
